@@ -11,6 +11,24 @@ TB = ("Trusted: Lean 4.33 kernel; axioms of every property theorem printed per r
       "lxml/libxml2 and CPython are modelled, not verified. ")
 
 CLAIMED = {
+    "C12": dict(
+        text="Proof-partial: Document.__serialize is modelled in Lean (declaration with the upper-cased label, prologue, root, "
+             "epilogue, a newline separator exactly for formatting serializers) with the reading side on the same pieces; "
+             "proved for every number of comments/PIs and both separator modes: the output starts with the declaration and "
+             "the declared label is the requested one up to ASCII case; the constructs appear completely and in order; "
+             "reading back yields label, prologue, root string and epilogue (c12_read_back); composed with C02 the plain "
+             "document round-trips to the normalised root (c12_document_roundtrip); the root setter keeps prologue and "
+             "epilogue (spec and the two-stack mechanism _copy_root_siblings); the parser options remove exactly the "
+             "comments / PIs at every depth, in order (c12_drop_exact). Tie to code: bytes of Document.save/write and "
+             "str(Document) for generated documents x 11 encoding labels x 5 newline settings x 7 format options == model "
+             "text, newline-translated and encoded by the named codec; property oracle: the bytes are re-read by delb and "
+             "by lxml and compared with root, prologue and epilogue; root replacement and parser options on the "
+             "implementation == model.",
+        note=TB + "Partial: codecs and io.TextIOWrapper newline translation are runtime behaviour - checked per case, not "
+             "proved; the root's own formatted serialization is the subject of C03/C19 and enters the document model as a string.",
+        technique="Lean 4 theorems (document layer: order, separators, read-back, parser options) + differential correspondence on written bytes",
+        design="3/C12",
+    ),
     "C11": dict(
         text="Proof (mapping part) / proof-partial (view part): TagAttributes/Attribute over lxml's store are modelled in Lean "
              "(Clark keys, in-scope default namespace, per-qualified-name view cache, __resolve_accessor, _etree_key, "
